@@ -81,6 +81,8 @@ def replay_reinforce(tuples, C, viol, samples):
                 m = REINFORCE(env, pol, baseline=NoBaseline())
             elif kind == "exp":
                 m = REINFORCE(env, pol, baseline=ExponentialBaseline(beta=beta))
+            elif kind == "warmup":
+                m = REINFORCE(env, pol, baseline=NoBaseline())   # the baseline object is created per history below
             elif kind == "critic":
                 m = A2C(env, pol, critic=critic)
             else:
@@ -94,6 +96,13 @@ def replay_reinforce(tuples, C, viol, samples):
         mod = module(kind)
         if kind == "exp":
             mod.baseline = ExponentialBaseline(beta=beta)   # fresh state for every history
+        if kind == "warmup":
+            from rl4co.models.rl.reinforce.baselines import WarmupBaseline
+            wb = WarmupBaseline(ExponentialBaseline(beta=int(C["Beta2N"]) / int(C["Beta2D"])), n_epochs=int(C["AlphaD"]),
+                                warmup_exp_beta=beta)
+            for e in range(int(C["AlphaN"])):        # alpha = AlphaN / AlphaD after AlphaN epoch callbacks
+                wb.epoch_callback(None, env=None, batch_size=1, device="cpu", epoch=e, dataset_size=None)
+            mod.baseline = wb
         for j in range(len(hist)):
             R, Lneg, X = hist[j]
             adv, loss, gL, gX = table[(kind, hist[: j + 1])]
@@ -149,9 +158,19 @@ def replay_reinforce(tuples, C, viol, samples):
                 g2 = l2.grad.t().contiguous().view(-1).tolist()
                 if not near(ls, loss) or any(not near(g, e) for g, e in zip(g2, gL)):
                     bad.append("SymNCO problem_symmetricity_loss %s grad %s" % (float(ls), g2))
+                # solution symmetricity: baseline = mean over the LAST axis (augmentations) of a [batch, starts, aug] reward
+                from rl4co.models.zoo.symnco.losses import solution_symmetricity_loss
+                r3 = r2.view(B, 1, K).contiguous()
+                l3 = ll.detach().view(K, B).t().contiguous().view(B, 1, K).requires_grad_(True)
+                ls3 = solution_symmetricity_loss(r3, l3)
+                if torch.is_tensor(ls3) and ls3.requires_grad:
+                    ls3.backward()
+                g3 = (l3.grad if l3.grad is not None else torch.zeros_like(l3)).view(B, K).t().contiguous().view(-1).tolist()
+                if not near(ls3, loss) or any(not near(g, e) for g, e in zip(g3, gL)):
+                    bad.append("SymNCO solution_symmetricity_loss on [B,1,K] %s grad %s" % (float(ls3), g3))
             if bad:
                 viol.append({"property": "C16", "env": {"no": "REINFORCE", "exp": "REINFORCE+exponential", "extra": "REINFORCE+rollout-extra",
-                                                        "critic": "A2C", "shared": "POMO"}[kind], "monitor": "replay-surrogate",
+                                                        "critic": "A2C", "shared": "POMO", "warmup": "REINFORCE+warmup"}[kind], "monitor": "replay-surrogate",
                              "inst": {"kind": kind, "steps": [list(map(list, st)) for st in hist[: j + 1]]}, "actions": [],
                              "detail": "; ".join(bad)[:600]})
                 break
@@ -235,6 +254,37 @@ def replay_ppo(tuples, C, viol, samples):
             bad.append("d loss/d value %s, expected %s" % (critic.V.grad.view(-1).tolist(), [str(fr(x)) for x in gX]))
         if any(not near(a, fr(b), 1e-4) for a, b in zip(pol.ent.grad.tolist(), gE)):
             bad.append("d loss/d entropy %s, expected %s" % (pol.ent.grad.tolist(), [str(fr(x)) for x in gE]))
+        # the same batch split into mini-batches of size n-1 (the last one is partial): every mini-batch loss is the MEAN over
+        # its own rows, so the gradient of row r in a mini-batch of m rows is the specification's value times n/m
+        if n >= 3:
+            steps = []
+
+            class _Opt2:
+                def zero_grad(self_):
+                    pol.new.grad = None
+                    critic.V.grad = None
+                    pol.ent.grad = None
+
+                def step(self_):
+                    steps.append((pol.last_idx.tolist(), pol.new.grad.clone(), critic.V.grad.clone().view(-1)))
+
+            mod.optimizers = lambda: _Opt2()
+            mod.ppo_cfg["mini_batch_size"] = n - 1
+            pol.new = new.detach().clone().requires_grad_(True)
+            pol.ent = torch.tensor([float(e) for e in E], requires_grad=True)
+            mod.shared_step(gen_batch.clone(), 0, "train")
+            mod.ppo_cfg["mini_batch_size"] = n
+            mod.optimizers = lambda: _Opt()
+            seen = sorted(i for (idx, _, _) in steps for i in idx)
+            if seen != list(range(n)):
+                bad.append("mini-batches do not partition the batch: %s" % [idx for (idx, _, _) in steps])
+            for (idx, gl, gx) in steps:
+                m = len(idx)
+                for r in idx:
+                    if not near(gl[r, 0], expL[r] * n / m, 1e-4) or not near(gx[r], fr(gX[r]) * n / m, 1e-4):
+                        bad.append("mini-batch %s (size %d): d loss/d log-likelihood of row %d is %s, mean-over-the-mini-batch surrogate "
+                                   "gives %s" % (idx, m, r, float(gl[r, 0]), expL[r] * n / m))
+                        break
         if bad:
             viol.append({"property": "C16", "env": "PPO", "monitor": "replay-ppo-surrogate",
                          "inst": {"reward": R, "log_ratio_in_ln2": [d - doff for d in D], "value": X, "entropy": E}, "actions": [],
@@ -253,13 +303,16 @@ def run(tier, seed):
     cfgs = [dict(Kinds='{"no","extra","critic","shared"}', NRows="4", GroupB="2", RVals="{0,1,3}" if not quick else "{0,3}",
                  LVals="{1,2}", XVals="{0,2}", MaxSteps="1", BetaN="4", BetaD="5"),
             dict(Kinds='{"exp"}', NRows="2", GroupB="1", RVals="{0,1,3}", LVals="{1,2}", XVals="{0}", MaxSteps="3", BetaN="4", BetaD="5"),
-            dict(Kinds='{"exp"}', NRows="3", GroupB="1", RVals="{0,2}", LVals="{1}", XVals="{0}", MaxSteps="2", BetaN="0", BetaD="1")]
+            dict(Kinds='{"exp"}', NRows="3", GroupB="1", RVals="{0,2}", LVals="{1}", XVals="{0}", MaxSteps="2", BetaN="0", BetaD="1"),
+            # warm-up mixture in the mixed regime: alpha = 1/3 (after the first of three warm-up epochs), inner baseline EMA(1/2)
+            dict(Kinds='{"warmup"}', NRows="2", GroupB="1", RVals="{0,1,3}", LVals="{1}", XVals="{0}", MaxSteps="3", BetaN="4", BetaD="5")]
     if not quick:
         cfgs.append(dict(Kinds='{"shared"}', NRows="6", GroupB="2", RVals="{0,1,3}", LVals="{1,2}", XVals="{0}", MaxSteps="1",
                          BetaN="4", BetaD="5"))
         cfgs.append(dict(Kinds='{"shared"}', NRows="6", GroupB="3", RVals="{0,1,3}", LVals="{1}", XVals="{0}", MaxSteps="1",
                          BetaN="4", BetaD="5"))
     for i, C in enumerate(cfgs):
+        C.setdefault("Beta2N", "1"); C.setdefault("Beta2D", "2"); C.setdefault("AlphaN", "1"); C.setdefault("AlphaD", "3")
         wd, root = tlc.prepare("reinforce_%d" % i, module="Reinforce")
         tlc.write_cfg(wd, root, constants=C, invariants=["SharedZeroMean", "NoBroadcast", "MeanZero", "Emit"])
         r = tlc.run(wd, root, timeout=3000)
@@ -268,7 +321,7 @@ def run(tier, seed):
         model_viol += r.violated
         tup = r.tuples("G")
         nrep += replay_reinforce(tup, C, viol, samples)
-    CP = dict(NRows="2" if quick else "3", RVals="{0,2}", DVals="{0,1,2}", DOff="1", XVals="{0,1,3}", EVals="{1,2}",
+    CP = dict(NRows="3", RVals="{0,2}", DVals="{0,1,2}", DOff="1", XVals="{0,3}" if quick else "{0,1,3}", EVals="{1}" if quick else "{1,2}",
               ClipN="1", ClipD="5", VfN="1", VfD="2", EntN="1", EntD="100")
     wd, root = tlc.prepare("pposurrogate", module="PPOSurrogate")
     tlc.write_cfg(wd, root, constants=CP, invariants=["ClipBound", "Emit"])
